@@ -281,4 +281,94 @@ theorem lossy_number_lemire (slow : SlowRadix) {F : FTy} (hF : IsLemireFloat F) 
       (by rw [moderatePath_lemire_lossy c hcompact hr]; exact h1) h2
     exact ⟨vl, e1, closeDown_of hF _ num den (roundNE F.fmt n' d') vl hd (by rw [h3] at e2; exact e2) hmono hstep⟩
 
+/-! ## decimal, API level -/
+
+open LexVerif.Proof.Bell in
+/-- an exact untruncated `Number`: its digit content is its true value -/
+theorem tv_of_ratEq (c : Cfg) (hr : c.mantissaRadix = 10) (hb : c.exponentBase = 10) (n : Number)
+    (hmany : n.manyDigits = false)
+    (hx : RatEq (powFrac c.exponentBase n.exponent n.mantissa) (litFrac c.mantissaRadix c.exponentBase (numberLit c n))) :
+    TrueValue 10 (numOf n) (litFrac 10 10 (numberLit c n)).1 (litFrac 10 10 (numberLit c n)).2 := by
+  unfold RatEq at hx
+  rw [hr, hb] at hx
+  unfold TrueValue
+  have hmn : (numOf n).mantissa = n.mantissa := rfl
+  have hen : (numOf n).exponent = n.exponent := rfl
+  have hmd : (numOf n).manyDigits = n.manyDigits := rfl
+  rw [hmn, hen, hmd, hmany]
+  simp only [Bool.false_eq_true, if_false]
+  exact ⟨Nat.le_of_eq hx, Nat.le_of_eq hx.symm⟩
+
+/-- the oracle's bits of a decimal `Number` are `roundSigned` of its digit content -/
+theorem numberBits_decimal {F : FTy} (hF : IsLemireFloat F) (c : Cfg) (hr : c.mantissaRadix = 10)
+    (hb : c.exponentBase = 10) (n : Number)
+    (hx : n.manyDigits = false →
+      RatEq (powFrac c.exponentBase n.exponent n.mantissa) (litFrac c.mantissaRadix c.exponentBase (numberLit c n))) :
+    numberBits c F.fmt n =
+      roundSigned F.fmt n.isNegative (litFrac 10 10 (numberLit c n)).1 (litFrac 10 10 (numberLit c n)).2 := by
+  obtain ⟨p, eb, lay⟩ := layout_of hF
+  have hlit := litBits_exact lay (r := 10) (b := 10) (by decide) (by decide) (by decide) (numberLit c n)
+    (by have := numberLit_digits_lt c n; rwa [hr] at this)
+  have hneg : (numberLit c n).neg = n.isNegative := rfl
+  rw [hneg] at hlit
+  cases hmany : n.manyDigits with
+  | false =>
+    have := (spec_forms hF c (by omega) (by omega) (by omega) n hmany (hx hmany)).2
+    rw [this, hr, hb, hlit]
+  | true =>
+    have hbits : numberBits c F.fmt n = litBits F.fmt 10 10 (numberLit c n) := by
+      unfold numberBits numberLit
+      simp only [hmany, if_true, hr, hb]
+      rfl
+    rw [hbits, hlit]
+
+/-- **C19, decimal, Eisel–Lemire builds**: for every non-`compact` build, every separator-free format class of C12,
+all options, `f32`/`f64`, complete and partial parser and every input (any number of digits), the lossy pipeline prints
+the oracle's line, or `ok` with the same count and bits of the same sign whose magnitude is the correctly rounded one or
+the pattern just below it. -/
+theorem C19_decimal_lossy_lemire (slow : SlowRadix) (feats : Features) (hcompact : feats.compact = false)
+    (fmt : Format) (hr : fmt.mantissaRadix = 10) (hb : fmt.exponentBase = 10)
+    (hclass : feats.format = false ∨ C12.SepPrefixFree fmt)
+    (o : POpts) {F : FTy} (hF : IsLemireFloat F) (isPartial : Bool) (s : List Nat)
+    (h256 : ∀ x ∈ s, x < 256) (hlen : s.length < 2 ^ 60) :
+    LossyRel (CloseDown F) (parseFloatModel feats fmt o isPartial F.fmt s)
+      (parseFloatAlgoModel slow feats fmt o isPartial F s true) := by
+  apply lossyRel_of_numbers
+  intro hval n cnt hp
+  have hdp := C01Final.dp_not_digit feats fmt o (by omega) hval
+  have hr' : (⟨feats, fmt, false⟩ : Cfg).mantissaRadix = 10 := hr
+  have hb' : (⟨feats, fmt, false⟩ : Cfg).exponentBase = 10 := hb
+  have hlpos := litFrac_den_pos (r := 10) (b := 10) (by decide) (by decide) (numberLit ⟨feats, fmt, false⟩ n)
+  cases hmany : n.manyDigits with
+  | false =>
+    obtain ⟨hx, _, _⟩ := C01Number.number_exact_of_syntax ⟨feats, fmt, false⟩ rfl hclass hr hb o hdp isPartial s _
+      h256 hlen n cnt hp hmany
+    rw [numberBits_decimal hF _ hr' hb' n (fun _ => hx.2.2)]
+    exact lossy_number_lemire slow hF ⟨feats, fmt, false⟩ hcompact hr' hb' n hx.1 hx.2.1
+      (fun h => by rw [hmany] at h; exact absurd h (by decide)) _ _ hlpos
+      (tv_of_ratEq _ hr' hb' n hmany hx.2.2)
+  | true =>
+    obtain ⟨hs, hN, hw, hw1, hwlt, hq, hE1, hE2, hl1, hl2⟩ := C01Number.number_truncated_of_syntax ⟨feats, fmt, false⟩
+      rfl hclass hr hb o hdp isPartial s _ h256 hlen n cnt hp hmany
+    rw [numberBits_decimal hF _ hr' hb' n (fun h => by rw [hmany] at h; exact absurd h (by decide))]
+    have hw64 : n.mantissa < 2 ^ 64 := by
+      have : (10 : Nat) ^ 19 < 2 ^ 64 := by decide
+      omega
+    have hI : IsI64 n.exponent := by
+      obtain ⟨z, hz⟩ := C01SlowDomain.sig_decomp n.integer n.fraction
+      have hsl : (LexVerif.Proof.Slow.sigBytes n.integer n.fraction).length ≤ n.integer.length + (n.fraction.getD []).length := by
+        have := congrArg List.length hz
+        rw [List.length_append, List.length_append, List.length_replicate] at this
+        omega
+      unfold IsI64
+      have h40 : (2 : Int) ^ 40 = 1099511627776 := by norm_num
+      have h60 : (2 : Nat) ^ 60 = 1152921504606846976 := by norm_num
+      have h63 : (2 : Int) ^ 63 = 9223372036854775808 := by norm_num
+      rw [hq, h63]
+      rw [h40] at hE1 hE2
+      rw [h60] at hl1 hl2
+      constructor <;> omega
+    exact lossy_number_lemire slow hF ⟨feats, fmt, false⟩ hcompact hr' hb' n hw64 hI (fun _ => hw1) _ _ hlpos
+      (C01Compact.litFrac_tv_truncated _ hr' n hmany hs hN hw hq)
+
 end LexVerif.Props.C19Final
